@@ -227,6 +227,12 @@ func (r *Run) execute() *Run {
 					m := -1
 					if err == nil {
 						m = PayloadID(b)
+						// the application keeps what Recv returned: it
+						// must still read the same at the end of the run
+						r.mu.Lock()
+						r.kept[i] = append(r.kept[i], b)
+						r.keptSum[i] = append(r.keptSum[i], sum32(b))
+						r.mu.Unlock()
 					}
 					r.Rec.Emit("recvRet", "ep", ep, "m", m,
 						"err", errStr(err), "len", len(b))
@@ -279,6 +285,19 @@ func (r *Run) execute() *Run {
 	}
 	for _, ep := range []string{"c", "s"} {
 		i := epIdx[ep]
+		r.mu.Lock()
+		bad := 0
+		for k, kb := range r.kept[i] {
+			if sum32(kb) != r.keptSum[i][k] {
+				bad++
+			}
+		}
+		nk := len(r.kept[i])
+		r.mu.Unlock()
+		r.Rec.Emit("recvKept", "ep", ep, "n", nk, "bad", bad)
+	}
+	for _, ep := range []string{"c", "s"} {
+		i := epIdx[ep]
 		b, t, sz := conns[ep].VerifQueueState()
 		r.Rec.Emit("end", "ep", ep, "delivered", dl[i], "want",
 			cfg.Msgs[1-i], "timedOut", to, "base", int(b), "top",
@@ -325,6 +344,15 @@ func (r *Run) execute() *Run {
 		}
 	}
 	return r
+}
+
+// sum32 is a checksum of a delivered message (FNV-1a).
+func sum32(b []byte) uint32 {
+	h := uint32(2166136261)
+	for _, x := range b {
+		h = (h ^ uint32(x)) * 16777619
+	}
+	return h
 }
 
 // LeakName extracts the innermost gbn function of a goroutine stack.
